@@ -370,14 +370,15 @@ theorem cutAux_no_breaks : ∀ (s : Str) (i : Nat) (p : Char), GbLayout.cutAux [
     rw [GbLayout.cutAux, if_neg (by simp), cutAux_no_breaks rest (i + 1) c]
     rfl
 
-theorem qualLines_one (k v : Str) : GbLayout.qualLines k v [] = [spaces 21 ++ ['/'] ++ k ++ ['=', '"'] ++ v ++ ['"']] := by
+theorem qualLines_one (k v : Str) : GbLayout.qualLines k v [] 0 = [spaces 21 ++ ['/'] ++ k ++ ['=', '"'] ++ v ++ ['"']] := by
   unfold GbLayout.qualLines GbLayout.valueChunks
+  rw [if_neg (by simp), if_neg (by simp)]
   split
   · simp [GbLayout.cutText, cutAux_no_breaks, GbLayout.closeLast, GbLayout.hang, Str.spaces, spaces]
   · simp [GbLayout.wrapText, wrapAux_no_breaks, GbLayout.closeLast, GbLayout.hang, Str.spaces, spaces]
 
 theorem qualsLines_keys (attrs : List (Str × Str)) : ∀ keys : List Str,
-    GbLayout.qualsLines (keys.map fun k => (k, lookupD attrs k)) [] = keys.map (qualLine attrs)
+    GbLayout.qualsLines (keys.map fun k => (k, lookupD attrs k)) [] [] = keys.map (qualLine attrs)
   | [] => rfl
   | k :: keys => by
     simp only [List.map_cons, GbLayout.qualsLines, List.headD_nil, List.tail_nil, qualLines_one,
@@ -473,6 +474,38 @@ theorem locusLine_eq (x : Sequence) (hm : (molOf x.metadata.locus.moleculeType).
 
 /-! ### the whole record -/
 
+theorem off_nil : ∀ k, PolyVerif.GbLayout.off [] k = 0
+  | 0 => rfl
+  | k + 1 => by simp [PolyVerif.GbLayout.off, off_nil k]
+
+/-- with no extra block moved up and no block left out, the C01 layout is the plain sequence of blocks -/
+theorem layout_plain (r : PolyVerif.GbLayout.GbRec) (ℓ : PolyVerif.GbLayout.RecLayout) (hc : ℓ.extraCuts = [])
+    (h1 : ℓ.omitDefinition = false) (h2 : ℓ.omitAccession = false) (h3 : ℓ.omitVersion = false)
+    (h4 : ℓ.omitKeywords = false) (h5 : ℓ.omitSource = false) :
+    PolyVerif.GbLayout.layout r ℓ =
+      [PolyVerif.GbLayout.locusLine r.locus r.seq.length ℓ]
+      ++ PolyVerif.GbLayout.block ['D', 'E', 'F', 'I', 'N', 'I', 'T', 'I', 'O', 'N'] r.definition ℓ.definition
+      ++ PolyVerif.GbLayout.block ['A', 'C', 'C', 'E', 'S', 'S', 'I', 'O', 'N'] r.accession ℓ.accession
+      ++ PolyVerif.GbLayout.block ['V', 'E', 'R', 'S', 'I', 'O', 'N'] r.version ℓ.version
+      ++ PolyVerif.GbLayout.block ['K', 'E', 'Y', 'W', 'O', 'R', 'D', 'S'] r.keywords ℓ.keywords
+      ++ PolyVerif.GbLayout.block ['S', 'O', 'U', 'R', 'C', 'E'] r.source ℓ.source
+      ++ PolyVerif.GbLayout.block [' ', ' ', 'O', 'R', 'G', 'A', 'N', 'I', 'S', 'M'] r.organism ℓ.organism
+      ++ PolyVerif.GbLayout.refsLines 0 r.refs ℓ.refs
+      ++ PolyVerif.GbLayout.extrasLines r.extras ℓ.extras
+      ++ [PolyVerif.GbLayout.featuresHeader]
+      ++ PolyVerif.GbLayout.featsLines r.features ℓ.feats
+      ++ [if ℓ.originTrail = true then ['O', 'R', 'I', 'G', 'I', 'N', ' ', ' ', ' ', ' ', ' ', ' '] else ['O', 'R', 'I', 'G', 'I', 'N']]
+      ++ PolyVerif.GbLayout.originLines r.seq ℓ.blockLen ℓ.perLine
+      ++ [['/', '/']] := by
+  have hs : ∀ k, PolyVerif.GbLayout.extraSlot r ℓ k = [] := by
+    intro k
+    simp [PolyVerif.GbLayout.extraSlot, hc, PolyVerif.GbLayout.extrasLines]
+  have hr : PolyVerif.GbLayout.extraRest r ℓ = PolyVerif.GbLayout.extrasLines r.extras ℓ.extras := by
+    simp [PolyVerif.GbLayout.extraRest, hc, off_nil]
+  unfold PolyVerif.GbLayout.layout PolyVerif.GbLayout.mblock PolyVerif.GbLayout.sourceBlock
+  simp only [hs, hr, h1, h2, h3, h4, h5, Bool.false_eq_true, false_and, if_false, List.append_nil, List.append_assoc]
+
+
 theorem list_glue (L : Str) (H FT O : List Str) (FH OR T : Str) :
     L :: (H ++ FH :: (FT ++ OR :: (O ++ [T]))) = [L] ++ H ++ [FH] ++ FT ++ [OR] ++ O ++ [T] := by
   simp
@@ -526,7 +559,7 @@ theorem lines_build_eq_layout (x : Sequence) (h : covered x = true) :
     simp only [sortedEntries, List.map_map, Function.comp_def]
     exact header_glue _ _ _ _ _ _ _ _
   rw [build_lines x hlay, hhdr, featsLines_eq _ hftype, origin_eq hne, list_glue]
-  unfold PolyVerif.GbLayout.layout
+  rw [layout_plain (toRec x) (polyLayout x) rfl rfl rfl rfl rfl rfl]
   rw [← locusLine_eq x hmol htopo hdiv hlen, k1, k2, k3, k4, k5, k6, k7, k8, k9]
   rfl
 
